@@ -141,7 +141,16 @@ def gen_calltables(repo):
     shk_body = [s for s in shk.body if not (isinstance(s, ast.Expr) and isinstance(s.value, ast.Constant))]
     shk_lean = if_chain_to_lean(shk_body, tr, 'should_have_kwargs')
 
-    iim = ast.unparse(single_return(find_func(df, 'is_instance_method', 'DecoratedFunction'), 'is_instance_method'))
+    iim_fn = find_func(df, 'is_instance_method', 'DecoratedFunction')
+    iim_body = [s for s in iim_fn.body if not (isinstance(s, ast.Expr) and isinstance(s.value, ast.Constant))]
+    excludes_bound = False      # `if inspect.ismethod(self._func): return False` in front: a bound method does not expect its instance
+    if len(iim_body) == 2 and isinstance(iim_body[0], ast.If) and ast.unparse(iim_body[0].test) == 'inspect.ismethod(self._func)' \
+            and not iim_body[0].orelse and len(iim_body[0].body) == 1 and isinstance(iim_body[0].body[0], ast.Return) \
+            and ast.unparse(iim_body[0].body[0].value) == 'False' and isinstance(iim_body[1], ast.Return):
+        excludes_bound = True
+        iim = ast.unparse(iim_body[1].value)
+    else:
+        iim = ast.unparse(single_return(iim_fn, 'is_instance_method'))
     first_is_self = iim == "self._full_arg_spec.args != [] and self._full_arg_spec.args[0] == 'self'"
     if not first_is_self:
         raise Skip('is_instance_method: unexpected expression ' + iim)
@@ -287,6 +296,8 @@ def gen_calltables(repo):
     L.append('/-- `FunctionCall.args_without_self`, translated: the allowed number of decorator lines, the comparison, the strip condition -/')
     L.append(f'def maxAllowed (isPedantic : Bool) : Nat := if {max_allowed[0]} then {max_allowed[1]} else {max_allowed[2]}')
     L.append(f'def usesMultiple (numOfDecorators : Nat) (isPedantic : Bool) : Bool := decide (numOfDecorators {multi_op} maxAllowed isPedantic)')
+    L.append('/-- is_instance_method answers False for a bound method (inspect.ismethod), whatever getfullargspec lists -/')
+    L.append(f'def instanceMethodExcludesBound : Bool := {lean_bool(excludes_bound)}')
     L.append(f'def stripsFirst (isInstanceMethod isStaticMethod usesMultipleDecorators : Bool) : Bool := {strip_cond}')
     L.append(f'def stripFrom : Nat := {strip_from}')
     L.append(f'def assertUsesKwargsRaises : String := {lean_str(auk_exc)}')
